@@ -1143,6 +1143,9 @@ class Engine:
             if not out:
                 out[()] = Str(path)
             return out
+        for pat, val in getattr(self, "const_models", {}).items():
+            if re.search(pat, rv):
+                return dict(val) if isinstance(val, dict) else {(): val}
         r = self._enum_const(rv)
         if r is not None:
             return r
